@@ -1,0 +1,83 @@
+// SPDX-FileCopyrightText: 2026 The Pion community <https://pion.ly>
+// SPDX-License-Identifier: MIT
+
+//go:build verif
+
+package oggwriter
+
+// Contracts for the contract-based verification in /verif (build tag verif); comments only.
+
+//@ func specCrcStep
+//@ pure
+//@ nosafety
+//@ func specCrcSteps
+//@ rec
+//@ func specCrcTableEntry
+//@ pure
+//@ nosafety
+//@ func specCrc
+//@ rec
+//@ func specOpusFrameSamples
+//@ pure
+//@ nosafety
+//@ func specOpusFrameCount
+//@ pure
+//@ nosafety
+//@ func specOpusPacketSamples
+//@ pure
+//@ nosafety
+//@ func specPageFlags
+//@ pure
+//@ nosafety
+
+// The checksum table is the CRC-32 table of polynomial 0x04c11db7 (MSB first).
+//@ func generateChecksumTable
+//@ props C33
+//@ ensures result != nil && (forall k int :: 0 <= k && k < 256 ==> result[k] == specCrcTableEntry(uint32(k)))
+//@ modifies nothing
+//@ loop 0 invariant rangeindex < 256 && (forall k int :: 0 <= k && k <= rangeindex ==> table[k] == specCrcTableEntry(uint32(k)))
+//@ loop 1 invariant 0 <= rangeint && rangeint < 8 && remainder == specCrcSteps(uint32(i) << 24, rangeint) && 0 <= i && i < 256
+
+// Opus duration arithmetic (RFC 6716).
+//@ func opusSamplesPerFrame
+//@ props C33
+//@ ensures result == specOpusFrameSamples(toc)
+//@ modifies nothing
+
+//@ func opusPacketFrameCount
+//@ props C33
+//@ deadreturn 1
+//@ requires len(payload) >= 1
+//@ ensures (err == nil) == (specOpusFrameCount(payload) != 0)
+//@ ensures err == nil ==> ret0 == specOpusFrameCount(payload)
+//@ modifies nothing
+
+//@ func opusPacketSampleCount
+//@ props C33
+//@ ensures (err == nil) == (len(payload) >= 1 && specOpusFrameCount(payload) != 0 && specOpusPacketSamples(payload) <= 5760)
+//@ ensures err == nil ==> ret0 == specOpusPacketSamples(payload)
+//@ modifies nothing
+
+//@ func packetPageHeaderType
+//@ props C33
+//@ requires headerType & 0x01 == 0
+//@ ensures result == specPageFlags(headerType, firstPage, packetComplete) | ite(firstPage, headerType &^ 0x07, 0)
+//@ modifies nothing
+
+// One page (RFC 3533 section 6): capture pattern, version 0, flags, granule position,
+// serial and sequence number (little endian), segment count, segment table, payload, and
+// a checksum field that holds the CRC of the whole page computed with that field zero.
+//@ func createPageForSerialWithSegments
+//@ props C33
+//@ requires checksumTable != nil && len(segmentTable) <= 255
+//@ ensures fresh(result) && len(result) == 27 + len(segmentTable) + len(payload)
+//@ ensures result[0] == 'O' && result[1] == 'g' && result[2] == 'g' && result[3] == 'S' && result[4] == 0 && result[5] == headerType
+//@ ensures result[6] == byte(granulePos) && result[7] == byte(granulePos >> 8) && result[8] == byte(granulePos >> 16) && result[9] == byte(granulePos >> 24) && result[10] == byte(granulePos >> 32) && result[11] == byte(granulePos >> 40) && result[12] == byte(granulePos >> 48) && result[13] == byte(granulePos >> 56)
+//@ ensures result[14] == byte(serial) && result[15] == byte(serial >> 8) && result[16] == byte(serial >> 16) && result[17] == byte(serial >> 24)
+//@ ensures result[18] == byte(pageIndex) && result[19] == byte(pageIndex >> 8) && result[20] == byte(pageIndex >> 16) && result[21] == byte(pageIndex >> 24)
+//@ ensures result[26] == byte(len(segmentTable))
+//@ ensures forall k int :: 0 <= k && k < len(segmentTable) ==> result[27 + k] == segmentTable[k]
+//@ ensures forall k int :: 0 <= k && k < len(payload) ==> result[27 + len(segmentTable) + k] == payload[k]
+//@ ensures uint32(result[22]) | uint32(result[23])<<8 | uint32(result[24])<<16 | uint32(result[25])<<24 == specCrc(checksumTable, withzero(result, 22, 26), len(result))
+//@ modifies nothing
+//@ loop 0 invariant rangeindex < len(page) && checksum == specCrc(checksumTable, page, rangeindex + 1)
